@@ -83,6 +83,21 @@ func genC16(o *Out, rng *rand.Rand, tier string) {
 		}
 		return x
 	}
+	// one builder many times over in one process (a client that renews for weeks): the 5th, the 171st, the 600th REQUEST is
+	// built like the first
+	{
+		adv := &dhcpv6.Message{MessageType: dhcpv6.MessageTypeAdvertise, TransactionID: dhcpv6.TransactionID{1, 2, 3}}
+		adv.AddOption(dhcpv6.OptClientID(&dhcpv6.DUIDLL{HWType: 1, LinkLayerAddr: net.HardwareAddr{2, 0, 0, 0, 0, 1}}))
+		adv.AddOption(dhcpv6.OptServerID(&dhcpv6.DUIDEN{EnterpriseNumber: 9, EnterpriseIdentifier: []byte{7}}))
+		adv.AddOption(&dhcpv6.OptIANA{IaId: [4]byte{1, 2, 3, 4}})
+		for k := 0; k < 700; k++ {
+			out := guard(func() map[string]any { return res6(dhcpv6.NewRequestFromAdvertise(adv)) })
+			if k < 3 || k%57 == 0 || out["ok"] != true {
+				rec := map[string]any{"op": "B6", "fn": "Request", "in": proj6(adv), "args": map[string]any{"nth": k}, "out": out}
+				o.Emit(rec, "builder-nth-use", []byte(fmt.Sprint("nth", k)), true)
+			}
+		}
+	}
 	for i := 0; i < n; i++ {
 		inner := innerMsg6(rng)
 		// ---- message builders
@@ -142,6 +157,10 @@ func genC16(o *Out, rng *rand.Rand, tier string) {
 				next, _ := cur.Options.RelayMessage().(*dhcpv6.RelayMessage)
 				cur = next
 			}
+			// the next relay on the path wraps what it received, whatever the hop counts in it: one more than the level below
+			link, peer := rip6(rng), rip6(rng)
+			r, err := dhcpv6.EncapsulateRelay(top, dhcpv6.MessageTypeRelayForward, link, peer)
+			emit("Encap", top, map[string]any{"mt": 12, "link": ip16(link), "peer": ip16(peer)}, res6(r, err), "encap-received-chain")
 		}
 		if rng.Intn(2) == 0 {
 			// after a trip over the wire: the chain must come back as it was sent
